@@ -123,6 +123,15 @@ impl<'a> Name<'a> {
         &self.labels[..]
     }
 
+    /// Verification hook: decode one name starting at `offset` of `data`,
+    /// returns the name and the position just after its in-place bytes
+    #[cfg(simple_dns_verif)]
+    pub fn verif_parse(data: &'a [u8], offset: usize) -> crate::Result<(Self, usize)> {
+        let mut position = offset;
+        let name = <Self as WireFormat>::parse(data, &mut position)?;
+        Ok((name, position))
+    }
+
     fn plain_append<T: std::io::Write>(&self, out: &mut T) -> crate::Result<()> {
         for label in self.iter() {
             out.write_all(&[label.len() as u8])?;
@@ -379,6 +388,12 @@ impl<'a> Label<'a> {
     /// Returns true if the label is empty
     pub fn is_empty(&self) -> bool {
         self.data.is_empty()
+    }
+
+    /// Verification hook: raw bytes of this label
+    #[cfg(simple_dns_verif)]
+    pub fn verif_bytes(&self) -> &[u8] {
+        &self.data
     }
 
     /// Transforms the inner data into its owned type
